@@ -25,6 +25,15 @@ CHECKS['C02'] = dict(
     note='Trusts the snapshots taken by the class-level __call__ wrappers; 1e-12 relative tolerance on inverse ratios.',
     ref='3/C02')
 
+CHECKS['C03'] = dict(
+    technique='runtime monitor: recorded NliSolver.compute_nli calls vs independent closed-form reference model; '
+              'metamorphic laws (cube law, monotonicity, order independence) on the real solver',
+    text='Each NLI evaluation made while a real Fiber is crossed is compared per channel with an independent scalar '
+         'implementation of eq. 120/123 fed from the user-level fibre parameters; scaling laws are checked on the '
+         'real solver. Exploration over generated fibres and combs.',
+    note='Trusts the reference implementation (written from the paper), sys.monitoring call records; 1e-9 relative.',
+    ref='3/C03')
+
 NOT_APPLICABLE = {
 }
 
